@@ -185,3 +185,69 @@ Print Assumptions C12_header_layout_sensitive_ctor_pinned.
 Theorem C12_format_spanned_any_number_of_spans : C19.DiagSpec.format_spanned_spec_stmt.
 Proof. exact C19.DiagProofs.format_spanned_spec. Qed.
 Print Assumptions C12_format_spanned_any_number_of_spans.
+
+(* MarkMap (cfgrammar/src/lib/markmap.rs): the structure the header of a .y/.l file and the builders' settings meet in *)
+From GV Require Import C12.MarkMapModel C12.MarkMapSpec C12.MarkMapProofs.
+Theorem C12_bsearch_spec : bsearch_spec_stmt.
+Proof. exact bsearch_spec. Qed.
+Print Assumptions C12_bsearch_spec.
+
+Theorem C12_markmap_insert_spec : markmap_insert_spec_stmt.
+Proof. exact markmap_insert_spec. Qed.
+Print Assumptions C12_markmap_insert_spec.
+
+Theorem C12_markmap_mark_spec : markmap_mark_spec_stmt.
+Proof. exact markmap_mark_spec. Qed.
+Print Assumptions C12_markmap_mark_spec.
+
+Theorem C12_markmap_get_spec : markmap_get_spec_stmt.
+Proof. exact markmap_get_spec. Qed.
+Print Assumptions C12_markmap_get_spec.
+
+Theorem C12_markmap_remove_spec : markmap_remove_spec_stmt.
+Proof. exact markmap_remove_spec. Qed.
+Print Assumptions C12_markmap_remove_spec.
+
+Theorem C12_markmap_merge_spec : markmap_merge_spec_stmt.
+Proof. exact markmap_merge_spec. Qed.
+Print Assumptions C12_markmap_merge_spec.
+
+Theorem C12_merge_point_table : merge_point_table_stmt.
+Proof. exact merge_point_table. Qed.
+Print Assumptions C12_merge_point_table.
+
+Theorem C12_merge_conflict_iff : merge_conflict_iff_stmt.
+Proof. exact merge_conflict_iff. Qed.
+Print Assumptions C12_merge_conflict_iff.
+
+Theorem C12_merge_not_atomic : merge_not_atomic_stmt.
+Proof. exact merge_not_atomic. Qed.
+Print Assumptions C12_merge_not_atomic.
+
+Theorem C12_merge_theirs_erases_value : merge_theirs_erases_value_stmt.
+Proof. exact merge_theirs_erases_value. Qed.
+Print Assumptions C12_merge_theirs_erases_value.
+
+Theorem C12_markmap_unused_missing_spec : markmap_unused_missing_spec_stmt.
+Proof. exact markmap_unused_missing_spec. Qed.
+Print Assumptions C12_markmap_unused_missing_spec.
+
+Theorem C12_markmap_iter_is_prefix : markmap_iter_is_prefix_stmt.
+Proof. exact markmap_iter_is_prefix. Qed.
+Print Assumptions C12_markmap_iter_is_prefix.
+
+Theorem C12_markmap_iter_complete_refuted : markmap_iter_complete_refuted_stmt.
+Proof. exact markmap_iter_complete_refuted. Qed.
+Print Assumptions C12_markmap_iter_complete_refuted.
+
+Theorem C12_markmap_sorted_inv : markmap_sorted_inv_stmt.
+Proof. exact markmap_sorted_inv. Qed.
+Print Assumptions C12_markmap_sorted_inv.
+
+Theorem C12_markmap_reachable_sorted : markmap_reachable_sorted_stmt.
+Proof. exact markmap_reachable_sorted. Qed.
+Print Assumptions C12_markmap_reachable_sorted.
+
+Theorem C12_markmap_never_panics : markmap_never_panics_stmt.
+Proof. exact markmap_never_panics. Qed.
+Print Assumptions C12_markmap_never_panics.
